@@ -78,7 +78,7 @@ LEVEL_TEXT = ("Proof with the monitor rule on Channel.lock (every access to the 
               "credits exactly the peer's uint32; _set_remote_channel honours the peer's max packet size when >= 4096; "
               "_check_add_window never returns more than was consumed and recv/recv_stderr send exactly that in "
               "WINDOW_ADJUST; set_combine_stderr, which moves buffered data between the two receive buffers, hands no window back "
-              "(ghost count of _check_add_window calls and of messages handed to the transport unchanged). Holds for every interleaving by the monitor rule; counters have no other writers (frame scan).")
+              "(ghost count of _check_add_window calls and of messages handed to the transport unchanged); on the arrival path (_feed, _feed_extended, contract shared with C20) every byte is either buffered for the application or counted as consumed on the spot, never both, so no byte is credited twice. Holds for every interleaving by the monitor rule; counters have no other writers (frame scan).")
 LEVEL_NOTE = ("Trusted: threading.Lock/Condition semantics (mutual exclusion, wait releases and reacquires atomically). "
               "_set_remote_channel/_set_window write without the lock (before the channel is handed out) - listed as allowed "
               "unlocked accesses. The debited message is sent after the lock is released (order on the wire vs EOF/CLOSE is "
